@@ -69,6 +69,7 @@ package parser
 //@   requires[C01] !locked(h.mu)
 //@   ensures[C01] mutex-released: lockstate() == old(lockstate())
 //@ every (*lexer).*
+//@   ensures[C03 C10] an-error-once-recorded-stays-recorded: old(l.err) != nil ==> l.err != nil
 //@   requires[C01] !locked(l.mu) && !locked(l.heredoc.mu)
 //@   ensures[C01] mutex-released: !locked(l.mu) && !locked(l.heredoc.mu)
 //@   ensures[C10] keeps-read-error: old(l.err) != nil && !(old(l.err) is Error) ==> l.err == old(l.err)
@@ -80,6 +81,7 @@ package parser
 // when lexing had already been interrupted by an earlier error and the
 // message is the parser's "unexpected EOF" that this interruption causes.
 //@ func (*lexer).error
+//@   assert[C01] at call close: cancel-is-closed-at-most-once: !closed(arg0)
 //@   ensures[C10 C03] error-recorded: l.err != nil
 //@   ensures[C01 C10] lexing-is-cancelled: !(old(l.err) != nil && strcontains(msg, ": unexpected EOF")) ==> closed(l.cancel)
 //@   ensures[C03] syntax-error-carries-name-position-message: old(l.err) == nil ==> l.err is Error && l.err.(Error).Name == l.name && l.err.(Error).Pos == pos && l.err.(Error).Msg == msg
@@ -116,15 +118,16 @@ package parser
 // After the first token of a call a comment is skipped up to, not including,
 // the newline that ends it, so that the newline still ends the command.
 //@ func (*lexer).skipComment
-//@   loop "for" decreases[C01] srclen() - srcpos() if len(l.aliases) == 0
+//@   loop "for" decreases[C01 C10] srclen() - srcpos() if len(l.aliases) == 0
 //@   ensures[C07 C09] stays-in-the-source: old(len(l.aliases)) == 0 ==> len(l.aliases) == 0
+//@   ensures[C07 C09] consumes-no-newline-after-the-hash: old(len(l.aliases)) == 0 ==> (forall k: old(srcpos()) + 1 <= k && k < srcpos() ==> srcrune(k) != '\n')
 //@   ensures[C07 C09] newline-left: old(len(l.aliases)) == 0 ==> l.eof || l.err != nil || (srcpos() < srclen() && srcrune(srcpos()) == '\n')
 //@   ensures[C09] one-comment: len(l.comments) == old(len(l.comments)) + 1 && (forall j: 0 <= j && j < old(len(l.comments)) ==> l.comments[j] == old(l.comments[j]))
 //@ func (*lexer).comment
 //@   ensures[C09] one-comment: len(l.comments) == old(len(l.comments)) + 1 && (forall j: 0 <= j && j < old(len(l.comments)) ==> l.comments[j] == old(l.comments[j]))
 //@   ensures[C09 C04] hash-and-text: l.comments[len(l.comments)-1].Hash == old(l.pos) && l.comments[len(l.comments)-1].Text == old(l.b) && l.b == ""
 //@ func (*lexer).linebreak
-//@   loop "for" decreases[C01] srclen() - srcpos() if len(l.aliases) == 0
+//@   loop "for" decreases[C01 C10] srclen() - srcpos() if len(l.aliases) == 0
 //@   ensures[C09] stays-in-the-source: old(len(l.aliases)) == 0 ==> len(l.aliases) == 0
 //@   ensures[C07 C08] no-newline-is-skipped-while-here-documents-are-pending: old(l.heredoc.n) != 0 && old(len(l.aliases)) == 0 ==> srcpos() == old(srcpos()) || (srcpos() >= 1 && !(exists k: old(srcpos()) <= k && k < srcpos() && srcrune(k) == '\n'))
 //@   ensures[C09] stops-before-the-next-token: result && old(len(l.aliases)) == 0 ==> srcpos() < srclen() && srcrune(srcpos()) != ' ' && srcrune(srcpos()) != '\t' && srcrune(srcpos()) != '\n' && srcrune(srcpos()) != '#'
@@ -176,6 +179,12 @@ package parser
 //@   ensures[C15] escaped-character-is-a-backslash-quotation: (r == '"' || r == '$' || r == '\\' || r == '`') ==> len(l.word) >= 1 && l.word[len(l.word)-1] is *ast.Quote && l.word[len(l.word)-1].(*ast.Quote).Tok == "\\" && len(l.word[len(l.word)-1].(*ast.Quote).Value) == 1 && l.word[len(l.word)-1].(*ast.Quote).Value[0] is *ast.Lit
 //@   ensures[C15] nothing-pending-only-the-quotation: (r == '"' || r == '$' || r == '\\' || r == '`') && old(l.b) == "" ==> len(l.word) == old(len(l.word)) + 1
 //@   ensures[C15] other-characters-keep-their-backslash: !(r == '"' || r == '$' || r == '\\' || r == '`' || r == '\n') ==> l.word == old(l.word) && len(l.b) >= old(len(l.b)) + 2 && l.b[old(len(l.b))] == '\\'
+//@ func (*lexer).scanParamExp
+//@   ensures[C03 C10] a-scanner-that-gives-up-has-recorded-why: !result ==> l.err != nil
+//@ func (*lexer).scanParamExpInBraces
+//@   ensures[C03 C10] a-scanner-that-gives-up-has-recorded-why: !result ==> l.err != nil
+//@ func (*lexer).scanQuote
+//@   ensures[C03 C10] a-scanner-that-gives-up-has-recorded-why: !result ==> l.err != nil
 //@ func (*lexer).lit
 //@   ensures[C04 C15] literal-carries-the-marked-position: old(l.b) != "" ==> len(l.word) == old(len(l.word)) + 1 && l.word[len(l.word)-1] is *ast.Lit && l.word[len(l.word)-1].(*ast.Lit).ValuePos == old(l.pos) && l.word[len(l.word)-1].(*ast.Lit).Value == old(l.b) && l.b == ""
 //@   ensures[C04 C15] nothing-pending-nothing-added: old(l.b) == "" ==> l.word == old(l.word)
@@ -380,10 +389,14 @@ package parser
 //@   ensures[C17] nothing-pushed: !result ==> l.aliases == old(l.aliases)
 
 //@ func (*lexer).lexCaseItem
+//@   assert[C03 C09] at call parser.(*lexer).linebreak: line-breaks-only-after-the-closing-parenthesis: tok == ')'
 //@   loop "for" invariant tokword(l, tok) && tok != NAME && tok != ASSIGNMENT_WORD
 // Here-document bodies are read with no token pending, and each body ends
 // with the pending word handed over to its redirection.
 //@ func (*lexer).lexHeredoc
+//@   site ATEOF = call parser.(*lexer).lexHeredoc$1#1
+//@   site DONE = call parser.(*lexer).lexToken
+//@   ensures[C03 C08] an-abandoned-body-is-an-error: result == nil && !site(DONE) ==> l.err != nil || (site(ATEOF) && siteret(ATEOF))
 //@   loop "for _, w := range h.Word" invariant[C08] quoted-so-far: quoted == (exists j: 0 <= j && j <= rangeindex && h.Word[j] is *ast.Quote)
 //@   assert[C03 C08] at call parser.(*lexer).lexHeredoc$1#1: only-the-last-document-may-end-at-end-of-input: l.heredoc.n == 0
 //@   site PREVEND = call ast.(*Lit).End
@@ -414,9 +427,9 @@ package parser
 // expansion read delivers the next rune and advances by one, a failed read
 // does not advance, and unread takes back exactly the rune just read.
 //@ func (*lexer).read
-//@   ensures[C07 C09] delivers-next-rune: old(len(l.aliases)) == 0 && result1 == nil ==> len(l.aliases) == 0 && srcpos() == old(srcpos()) + 1 && result0 == srcrune(old(srcpos())) && 0 <= old(srcpos()) && old(srcpos()) < srclen() && lastread()
+//@   ensures[C07 C09 C10] delivers-next-rune: old(len(l.aliases)) == 0 && result1 == nil ==> len(l.aliases) == 0 && srcpos() == old(srcpos()) + 1 && result0 == srcrune(old(srcpos())) && 0 <= old(srcpos()) && old(srcpos()) < srclen() && lastread()
 //@   ensures[C07 C09] end-of-input-only-at-the-end: old(len(l.aliases)) == 0 && result1 == io.EOF ==> srcpos() >= srclen()
-//@   ensures[C07 C09] failed-read-consumes-nothing: old(len(l.aliases)) == 0 && result1 != nil ==> len(l.aliases) == 0 && srcpos() == old(srcpos()) && !lastread() && (result1 == io.EOF ==> l.eof) && (result1 != io.EOF ==> l.err != nil)
+//@   ensures[C07 C09 C10] failed-read-consumes-nothing: old(len(l.aliases)) == 0 && result1 != nil ==> len(l.aliases) == 0 && srcpos() == old(srcpos()) && !lastread() && (result1 == io.EOF ==> l.eof) && (result1 != io.EOF ==> l.err != nil)
 //@   ensures[C04] counts-a-character: old(len(l.aliases)) == 0 && result1 == nil && result0 != '\n' ==> l.line == old(l.line) && l.col == old(l.col) + 1
 //@   ensures[C04] counts-a-line: old(len(l.aliases)) == 0 && result1 == nil && result0 == '\n' ==> l.line == old(l.line) + 1 && l.col == 1 && l.prevCol == old(l.col)
 //@   ensures[C04] failed-read-keeps-position: old(len(l.aliases)) == 0 && result1 != nil ==> l.line == old(l.line) && l.col == old(l.col)
@@ -450,6 +463,9 @@ package parser
 // grammar then guarantees one command that is a subshell or an arithmetic
 // evaluation; this is a property of the LALR automaton, not of this function.
 //@ func (*lexer).scanCmdSubst
+//@   requires r == '(' || r == '`'
+//@   ensures[C09] comments-of-the-substitution-are-kept: result ==> len(l.comments) == old(len(l.comments)) + len(ll.comments)
+//@   ensures[C03 C10] a-scanner-that-gives-up-has-recorded-why: !result ==> l.err != nil
 //@   requires[C04] opening-character-is-marked: len(l.aliases) == 0 ==> l.pos.line == l.line && l.pos.col == l.col - 1
 //@   ensures[C03 C04] position-resynchronised: result ==> l.line == ll.line && l.col == ll.col && l.pos == ll.pos
 //@   assert[C08] at call parser.(*lexer).run: nested-lexer-starts-with-its-own-empty-queue: ll.heredoc.n == 0 && len(ll.heredoc.stack) == 0 && ll != l
@@ -478,7 +494,7 @@ package parser
 // open only wraps its argument: it reads nothing from it (a read made here
 // could swallow a failure before the lexer's error slot exists).
 //@ func open
-//@   callsonly[C10 C07] bytes.NewReader strings.NewReader bufio.NewReader errors.New
+//@   callsonly[C10 C07 C15] bytes.NewReader strings.NewReader bufio.NewReader errors.New
 //@   ensures[C07] a-rune-scanner-is-read-directly: (src is *strings.Reader || src is *bytes.Reader || src is *bufio.Reader) ==> err == nil && r == src
 //@   ensures err == nil ==> r != nil
 
